@@ -226,12 +226,12 @@ class FQN:
                 None or the found object
             """
             ret = _find_obj_fqn(p, name, cls)
-            if ret:
+            if ret is not None:
                 return ret
             while hasattr(p, "parent"):
                 p = p.parent
                 ret = _find_obj_fqn(p, name, cls)
-                if ret:
+                if ret is not None:
                     return ret
                 # else continue to next parent or return None
 
@@ -389,20 +389,20 @@ class ImportURI(scoping.ModelLoader):
 
         # 1) try to find object locally
         ret = self.scope_provider(obj, attr, obj_ref)
-        if ret:
+        if ret is not None:
             return ret
 
         # 2) do we have loaded models?
         for m in model_repository.local_models:
             ret = self.scope_provider(m, attr, obj_ref)
-            if ret:
+            if ret is not None:
                 return ret
 
         # 3) Use builtin models as a fallback if provided
         if model._tx_metamodel.builtin_models:
             for m in model._tx_metamodel.builtin_models:
                 ret = self.scope_provider(m, attr, obj_ref)
-                if ret:
+                if ret is not None:
                     return ret
         return None
 
